@@ -5,7 +5,7 @@ from common import *
 import abigen, e2e, tablegen
 
 PROP = "C09"
-HEADER = "From Coq Require Import List Arith Bool.\nImport ListNotations.\nFrom DV Require Import Headers.Model."
+HEADER = "From Coq Require Import List Arith Bool String.\nImport ListNotations.\nFrom DV Require Import Headers.Model gen.Tables Escape.Model.\nLocal Open Scope string_scope."
 
 SPECIAL = r'''
 #[diplomat::bridge]
@@ -143,6 +143,82 @@ mod ffi {
 
 def includes_of(path):
     return re.findall(r'^\s*#include "([^"]+)"', open(path).read(), re.M)
+
+
+RUST_KEYWORDS = set("""as break const continue crate else enum extern false fn for if impl in let loop match mod move mut pub ref return self Self
+static struct super trait true type unsafe use where while async await dyn abstract become box do final macro override priv typeof unsized virtual
+yield try gen union""".split()) - {"union"}
+
+
+def keyword_tables_from_coq():
+    """the tables as Tie A wrote them into gen/Tables.v (so the bridge below is derived from what the code says now)"""
+    txt = open(os.path.join(COQ, "theories", "gen", "Tables.v")).read()
+    out = {}
+    for name in ("c_keywords", "cpp_extra_keywords", "js_reserved", "py_keywords"):
+        m = re.search(r"Definition " + name + r" : list string := \[(.*?)\]\.", txt, re.S)
+        out[name] = re.findall(r'"([^"]*)"', m.group(1))
+    return out
+
+
+def keyword_bridge(ctx, d, goals, violate):
+    """every word of the C / C++ / JS / Python keyword tables that can be written as a Rust parameter name, the same word with a trailing
+    underscore, and a few ordinary names, as parameters of generated methods: the names the C, C++ and JS backends emit are compared with
+    Escape/Model.v (Coq goals), and the generated files must compile / parse (a keyword missing from a table shows up here)."""
+    T = keyword_tables_from_coq()
+    words = sorted({w for ws in T.values() for w in ws})
+    usable = [w for w in words if re.fullmatch(r"[A-Za-z_][A-Za-z0-9_]*", w) and w not in RUST_KEYWORDS and w != "_"]
+    names = []
+    for w in usable:
+        names.append(w)
+    names += [w + "_" for w in usable[::5]] + ["plain", "value", "x", "integer", "classy", "news", "in_", "for_", "static_"]
+    seen, uniq = set(), []
+    for n in names:
+        if n not in seen:
+            seen.add(n); uniq.append(n)
+    per = 6
+    methods = [uniq[i:i + per] for i in range(0, len(uniq), per)]
+    src = ["#[diplomat::bridge]", "mod ffi {", "    #[diplomat::opaque]", "    pub struct Kw(pub u8);", "    impl Kw {"]
+    for i, ps in enumerate(methods):
+        src.append(f"        pub fn m{i}(&self, " + ", ".join(f"{n}: i32" for n in ps) + ") -> i32 { 0 }")
+    src += ["    }", "}"]
+    path = os.path.join(d, "keywords_all.rs")
+    open(path, "w").write("\n".join(src) + "\n")
+    stats = {"names": len(uniq), "methods": len(methods), "compared": 0}
+    def params_of(text, pat):
+        m = re.search(pat, text, re.S)
+        return None if not m else [x.strip().split()[-1].lstrip("*&") for x in m.group(1).split(",") if x.strip()]
+    for backend, table, file, std in (("c", "c_keywords", "Kw.h", "c11"), ("cpp", "cpp_keywords", "Kw.d.hpp", "c++20"), ("js", "js_reserved", "Kw.mjs", None)):
+        out = os.path.join(d, "out_kw_" + backend)
+        q = e2e.run_tool(backend, path, out)
+        if q.returncode != 0:
+            violate(f"direct:keywords:{backend}", {"what": f"diplomat-tool {backend} fails on a bridge whose parameters are named after keywords", "stderr": q.stderr[-800:],
+                                                   "lib_rs": open(path).read()[:3000]})
+            continue
+        text = open(os.path.join(out, file)).read()
+        for i, ps in enumerate(methods):
+            if backend == "c":
+                got = params_of(text, rf"Kw_m{i}\(([^)]*)\)")
+                got = got[1:] if got else got                   # the receiver
+            elif backend == "cpp":
+                got = params_of(text, rf"\bm{i}\(([^)]*)\)")
+            else:
+                got = params_of(text, rf"\n\s*m{i}\(([^)]*)\)\s*\{{")
+            if got is None or len(got) != len(ps):
+                violate(f"direct:keywords:{backend}", {"what": f"method m{i} of the keyword bridge not found (or with a different arity) in {file}", "params": ps, "found": got})
+                continue
+            for n, g in zip(ps, got):
+                if backend == "js" and not re.fullmatch(r"[a-z]+", n):
+                    continue                                    # heck's case conversion is not modelled: only its fixed points are compared
+                goals.append(f'agree_ident {table} "{n}" "{g}"')
+                stats["compared"] += 1
+        if backend == "js":
+            r = sh(["node", "--check", os.path.join(out, file)], timeout=120)
+        else:
+            r = e2e.syntax_only(os.path.join(out, "Kw.hpp" if backend == "cpp" else file), [out], std, cxx=(backend == "cpp"))
+        if r.returncode != 0:
+            violate(f"direct:keywords:{backend}", {"what": f"{file} of a bridge whose parameters are named after the words of the keyword tables does not compile / parse",
+                                                   "compiler": (r.stderr or r.stdout)[-1200:], "lib_rs": open(path).read()[:3000]})
+    return stats
 
 
 def check(ctx, replay=None):
@@ -290,8 +366,12 @@ def check(ctx, replay=None):
     if q.returncode == 0 and p.returncode != 0:
         ctx.violation("macro-param-named-this", {"lib_rs": THIS, "what": "a parameter named `this` is accepted by the tool but the macro expansion binds `this` twice "
                                                  "(its own name for the receiver): rustc E0415", "rustc": p.stderr[-500:]}, True)
+    kwstats = keyword_bridge(ctx, d, goals, violate)
     fails = run_shards(PROP, HEADER, goals) if goals else []
-    if fails and not ctx.violations:
+    if fails and not ctx.violations and goals[fails[0]].startswith("agree_ident"):
+        ctx.violation("corr:escape", {"broken": "correspondence goal " + goals[fails[0]][:400] + " : the parameter name a backend emitted is not the one Escape/Model.v "
+                                      "derives from the regenerated keyword table (theorem C09_escaped_is_not_a_keyword)"}, False)
+    elif fails and not ctx.violations:
         ctx.violation("corr:includes", {"broken": "correspondence goal " + goals[fails[0]][:400] + " : the include structure of the generated C headers is not the one Headers/Model.v derives"}, False)
     for f in os.listdir(d):
         if f.startswith("out_"):
@@ -307,4 +387,4 @@ def check(ctx, replay=None):
         "Modelled, not verified: include structure of the C headers (Headers/Model.v). The grammars of C/C++/JS/Rust are NOT modelled: whether a file "
         "compiles is decided by gcc/g++/node/rustc (partial); the general declared-before-use theorem for all reference graphs is not proved yet, "
         "the check is evaluated per generated graph",
-        samples or [{"note": "no generated output"}], ["partial: see DESIGN §5a"], {"files_examined": nfiles, "compiler_invocations": compiles, "skipped_not_accepted": skipped})
+        samples or [{"note": "no generated output"}], ["partial: see DESIGN §5a"], {"files_examined": nfiles, "compiler_invocations": compiles, "skipped_not_accepted": skipped, "keyword_bridge": kwstats})
